@@ -9,6 +9,7 @@ import (
 
 	"github.com/twmb/franz-go/pkg/kfake"
 	"github.com/twmb/franz-go/pkg/kgo"
+	"github.com/twmb/franz-go/pkg/kmsg"
 
 	"verif.local/ev"
 
@@ -61,7 +62,19 @@ type gcfg struct {
 	tv1      bool
 	coop     bool
 	noStable bool
+	// shortSess: session timeout 2.5 s (heartbeat 0.5 s, rebalance timeout 4 s)
+	// and a slow coordinator: the broker holds the EndTxn(commit) of one of A's
+	// transactions for 4 s before handling it (env choice), longer than the
+	// session timeout, so A is removed from the group without its cooperation
+	// while its transactional offset commit is pending; the only protection of
+	// the next owner in that window is RequireStable on its OffsetFetch.
+	shortSess bool
 }
+
+const (
+	genShortSession = 2500 * time.Millisecond
+	genEndTxnStall  = 4 * time.Second
+)
 
 func genCfgs(full bool) []gcfg {
 	out := []gcfg{
@@ -69,6 +82,8 @@ func genCfgs(full bool) []gcfg {
 		{name: "tv2-eager"},
 		{name: "tv1-coop", tv1: true, coop: true},
 		{name: "tv1-eager", tv1: true},
+		{name: "tv2-coop-ss", coop: true, shortSess: true},
+		{name: "tv2-eager-ss", shortSess: true},
 	}
 	if full {
 		out = append(out, gcfg{name: "tv2-coop-nostable", coop: true, noStable: true})
@@ -133,6 +148,14 @@ func genSessionOpts(cfg gcfg, name string) []kgo.Opt {
 	}
 	if !cfg.noStable {
 		opts = append(opts, kgo.RequireStableFetchOffsets())
+	}
+	if cfg.shortSess {
+		opts = append(opts,
+			kgo.SessionTimeout(genShortSession),
+			kgo.HeartbeatInterval(hb/2),
+			kgo.RebalanceTimeout(4*time.Second),
+			kgo.RequestTimeoutOverhead(10*time.Second), // the client must outwait the slow EndTxn
+		)
 	}
 	return opts
 }
@@ -238,12 +261,48 @@ func genScenario() *netctl.Scenario {
 			fin := fins[x.ChooseOf("fin", fins)]
 			gate := gatesL[x.ChooseOf("gate", gatesL)]
 			b0 := bfirst[x.ChooseOf("sB", bfirst)]
+			envs := []string{"-"}
+			if cfg.shortSess {
+				envs = []string{"slow-endtxn-A1"}
+				if full {
+					envs = append(envs, "slow-endtxn-A2")
+				}
+			}
+			env := envs[x.ChooseOf("env", envs)]
 
 			opts := []kfake.Opt{kfake.SeedTopics(nParts, inTopic), kfake.SeedTopics(1, outTopic)}
 			if cfg.tv1 {
 				opts = append(opts, kfake.MaxVersions(tv1Versions()))
 			}
+			if cfg.shortSess {
+				opts = append(opts, kfake.GroupMinSessionTimeout(time.Second))
+			}
 			c := x.Cluster(1, opts...)
+			if strings.HasPrefix(env, "slow-endtxn-A") {
+				// slow coordinator: the k-th EndTxn(commit) of member A is held
+				// for genEndTxnStall of virtual time before it is handled; all
+				// other requests (other connections) keep being served.
+				k, seen := int(env[len(env)-1]-'0'), 0
+				c.ControlKey(int16(kmsg.EndTxn), func(kreq kmsg.Request) (kmsg.Response, error, bool) {
+					if req := kreq.(*kmsg.EndTxnRequest); req.TransactionalID == "tx-A" && req.Commit {
+						if seen++; seen == k {
+							x.Count("endtxn_stalled", 1)
+							c.SleepControl(func() { time.Sleep(genEndTxnStall) })
+						}
+					}
+					return nil, nil, false
+				})
+			}
+			// Wire statistic (not judged): OffsetFetch requests of the members
+			// that do not carry RequireStable.
+			x.FrameHook = func(conn *netctl.Conn, dir string, key, ver int16, frame []byte) {
+				if key != 9 || dir != "req" {
+					return
+				}
+				if req, _, ok := netctl.DecodeRequest(frame); ok && !req.(*kmsg.OffsetFetchRequest).RequireStable {
+					x.Count("offsetfetch_without_require_stable", 1)
+				}
+			}
 			st := &state{c: c, v: variant{name: "EG", coop: cfg.coop, tv1: cfg.tv1}, sess: map[string]*kgo.GroupTransactSession{}, closed: map[string]bool{}, aFirstEnd: make(chan struct{})}
 			x.Data = st
 			h := nscen.Helper(x, c, kgo.RecordPartitioner(kgo.ManualPartitioner()))
@@ -288,8 +347,12 @@ func genScenario() *netctl.Scenario {
 					if b == nil {
 						return
 					}
-					for i, r := range []string{b0, "2--c", "2--c"} {
-						_ = i
+					rounds := []string{b0, "2--c", "2--c"}
+					if cfg.shortSess {
+						// B must still be polling when it inherits A's partitions
+						rounds = append(rounds, "2--c", "2--c")
+					}
+					for _, r := range rounds {
 						if !genRound(st, "B", b, t, r, func() {}) {
 							t.Step("close")
 							closeSession(st, "B")
